@@ -176,6 +176,13 @@ def render_variants(rng, tag):
 
 
 def check_case(ctx, r, variant=None):
+    try:
+        return _check_case(ctx, r, variant)
+    except Exception as e:
+        ctx.violation("render-raises", "building/rendering raised %r" % e, {"recipe": r})
+
+
+def _check_case(ctx, r, variant):
     tag = gen.build(r)
     if variant is None:
         out, eol, how = render_variants(ctx.rng, tag)
